@@ -1,4 +1,6 @@
 import FrappyModel.Client.Match
+import FrappyModel.Client.Timed
+import FrappyModel.Client.Shutdown
 /-
 C11 — Client: every caller gets its own reply or an error, under all interleavings; clean shutdown.
 
@@ -122,6 +124,40 @@ def judgeCaller (tbl : List (α × α)) (final : St α) (closedAt : List Nat) (e
   | .connError => if everClosing then .ok else .spuriousConnError
   | .timeout => if closedAt.any (fun k => c.putAt < k ∧ k ≤ c.endAt) then .notReleased else .ok
   | .other => .raised
+
+end
+
+section
+open Frappy.Client.Timed
+variable {α : Type} [DecidableEq α]
+
+/-- no caller waits longer than its time-out: on the model clock every caller has returned (or raised) by
+`t_put + put time-out + reply time-out`; a caller still inside `request()` is within that bound -/
+def WaitBounded (cfg : Cfg) (s : TSt α) : Prop :=
+  ∀ c ∈ s.callers,
+    match c.phase with
+    | .done tEnd _ => tEnd ≤ c.tPut + cfg.putMs + cfg.waitMs
+    | _ => s.now ≤ c.tPut + cfg.putMs + cfg.waitMs
+
+/-- a caller that returned with its event set returned no later than the moment … it was woken: nothing to say;
+a caller that is waiting has an entry the base model knows -/
+def CallersKnown (s : TSt α) : Prop :=
+  ∀ c ∈ s.callers, ∀ e tW, c.phase = .waiting e tW → e < s.base.nextId
+
+end
+
+section
+open Frappy.Client.Shutdown
+
+/-- the tx thread waits for the rx thread to end while the rx thread waits for the tx thread to end -/
+def JoinCycle (s : Sh) : Prop := s.tx = .disc .d8 ∧ s.rx = .disc .d5
+
+/-- a worker thread waits for its own end -/
+def SelfJoin (s : Sh) : Prop := s.tx = .disc .d5 ∨ s.rx = .disc .d8
+
+/-- the shutdown cannot get stuck: once a shutdown is requested (`_running` is false), as long as a worker thread or
+a thread inside `disconnect()` has not finished, one of these threads can take its next step -/
+def ShutdownProgress (s : Sh) : Prop := s.running = false → allDone s = false → canMove s = true
 
 end
 
